@@ -215,14 +215,75 @@ def rename_locals_back(model, changed, LOCALS):
 def bag_of(fn) -> set:
     """identifiers, attribute names and short string constants of a function body (what a rename of the function keeps)"""
     out = set()
+    bound = {n.id for n in ast.walk(fn) if isinstance(n, ast.Name) and isinstance(n.ctx, (ast.Store, ast.Del))}  # locals may be renamed too
+    bound |= {a.arg for a in ast.walk(fn) if isinstance(a, ast.arg)}
     for n in ast.walk(fn):
         if isinstance(n, ast.Name):
-            out.add(n.id)
+            if n.id not in bound:
+                out.add(n.id)
         elif isinstance(n, ast.Attribute):
             out.add("." + n.attr)
         elif isinstance(n, ast.Constant) and isinstance(n.value, str) and 0 < len(n.value) < 40:
             out.add("'" + n.value)
+    if isinstance(fn, (ast.FunctionDef, ast.AsyncFunctionDef)):
+        pol = return_polarity(fn)
+        if pol:
+            out.add("ret:+" if pol > 0 else "ret:-")
+        out.add("retkinds=" + return_kinds(fn))
     return out
+
+
+def return_polarity(fn) -> int:
+    """sign of (#`return True` - #`return False`) in the function's own scope: a predicate that was renamed *and inverted*
+    (`_check` -> `_mismatches`) is not the pinned function under a new name"""
+    t = f_ = 0
+    work = list(fn.body)
+    while work:
+        n = work.pop()
+        if isinstance(n, (ast.FunctionDef, ast.AsyncFunctionDef, ast.Lambda, ast.ClassDef)):
+            continue
+        if isinstance(n, ast.Return) and isinstance(n.value, ast.Constant) and isinstance(n.value.value, bool):
+            if n.value.value:
+                t += 1
+            else:
+                f_ += 1
+        work.extend(ast.iter_child_nodes(n))
+    return (t > f_) - (t < f_)
+
+
+def _kind_of_value(v) -> str:
+    if v is None or (isinstance(v, ast.Constant) and v.value is None):
+        return "None"
+    if isinstance(v, ast.Constant):
+        return "const:" + type(v.value).__name__
+    if isinstance(v, (ast.BoolOp, ast.Compare)) or (isinstance(v, ast.UnaryOp) and isinstance(v.op, ast.Not)):
+        return "bool-expr"
+    return type(v).__name__
+
+
+def return_kinds(fn) -> str:
+    """the syntactic kinds of what the function returns (a returned local bound once is read through): a helper that used to answer
+    a boolean expression and now hands back an object is not the same helper under a new name"""
+    kinds = set()
+    defs = {}
+    for n in ast.walk(fn):
+        if isinstance(n, ast.Assign) and len(n.targets) == 1 and isinstance(n.targets[0], ast.Name):
+            defs.setdefault(n.targets[0].id, []).append(n.value)
+    work = list(fn.body)
+    while work:
+        n = work.pop()
+        if isinstance(n, (ast.FunctionDef, ast.AsyncFunctionDef, ast.Lambda, ast.ClassDef)):
+            continue
+        if isinstance(n, ast.Return):
+            vs = [n.value]
+            if isinstance(n.value, ast.Name) and defs.get(n.value.id):
+                vs = list(defs[n.value.id])
+            for v in vs:
+                kinds.add(_kind_of_value(v))
+            work.extend(ast.iter_child_nodes(n))
+            continue
+        work.extend(ast.iter_child_nodes(n))
+    return ",".join(sorted(kinds))
 
 
 def pick_renamed(cands: list, pinned_bag) -> object:
@@ -241,3 +302,350 @@ def pick_renamed(cands: list, pinned_bag) -> object:
     if scored[0][0] >= 0.5 and scored[0][0] > scored[1][0]:
         return scored[0][1]
     return None
+
+
+# ------------------------------------------------------------------ calling conventions (positional vs keyword)
+# positional parameter names of external callables the package calls (from their documented signatures): lets a keyword spelling
+# (`patch(target=.., new=..)`, `ast.alias(name=.., asname=..)`) be read like the positional one the pinned tree uses
+EXTERNAL_SIGNATURES = {
+    "unittest.mock.patch": ["target", "new"],
+    "ast.alias": ["name", "asname"],
+    "ast.parse": ["source", "filename", "mode"],
+    "ast.copy_location": ["new_node", "old_node"],
+    "ast.fix_missing_locations": ["node"],
+    "importlib.util.cache_from_source": ["path", "debug_override"],
+    "importlib.util.decode_source": ["source_bytes"],
+    "os.environ.get": ["key", "default"],
+    "functools.wraps": ["wrapped"],
+    "inspect.signature": ["obj"],
+    "inspect.Signature": ["parameters"],
+    "inspect.Parameter": ["name", "kind"],
+    "jax.tree_util.tree_flatten": ["tree", "is_leaf"],
+    "jax.tree_util.tree_leaves": ["tree", "is_leaf"],
+    "jax.tree_util.tree_structure": ["tree"],
+    "jax.tree_util.tree_unflatten": ["treedef", "leaves"],
+    "typing.get_type_hints": ["obj", "globalns", "localns", "include_extras"],
+    "warnings.warn": ["message", "category", "stacklevel"],
+    "numpy.dtype": ["dtype"],
+    "hashlib.md5": ["string"],
+}
+
+
+def _callee_params(model, scope, call):
+    """(qualname, [parameter names a caller supplies, in order], set of keyword-only names) of a call that resolves to a package
+    function / a package class's __init__, else None"""
+    try:
+        t = model.resolve_call(scope, call)
+    except Exception:
+        return None
+    target, offset = None, 0
+    if t.kind == "func":
+        target = t.target
+        if target.cls is not None and isinstance(call.func, ast.Attribute):
+            decs = {d.id for d in target.decorators if isinstance(d, ast.Name)}
+            if "staticmethod" not in decs:
+                offset = 1
+        elif target.cls is not None and isinstance(call.func, ast.Name):
+            offset = 1  # an instance called through __call__
+    elif t.kind == "class":
+        target = model.lookup_method(t.target, "__init__")
+        offset = 1
+    elif t.kind == "ext" and isinstance(t.target, str) and t.target in EXTERNAL_SIGNATURES:
+        return "ext:" + t.target, list(EXTERNAL_SIGNATURES[t.target]), set(), set()
+    if target is None or not isinstance(target.node, (ast.FunctionDef, ast.AsyncFunctionDef)) or target.module.short.startswith("_typeguard"):
+        return None
+    a = target.node.args
+    if a.vararg is not None:
+        return None
+    pos = [x.arg for x in a.posonlyargs + a.args][offset:]
+    return target.qualname, pos, {x.arg for x in a.kwonlyargs}, {x.arg for x in a.posonlyargs}
+
+
+def call_conventions(model) -> dict:
+    """{callee qualname: {param: 'pos' | 'kw'}} for the parameters that every call site of the tree supplies the same way"""
+    seen = {}
+    scopes = [(f, f.node) for f in model.functions.values() if not f.module.short.startswith("_typeguard")]
+    for mod in model.modules.values():
+        if not mod.short.startswith("_typeguard"):
+            for st in mod.tree.body:
+                if not isinstance(st, (ast.FunctionDef, ast.AsyncFunctionDef, ast.ClassDef)):
+                    scopes.append((mod, st))
+    for f, root in scopes:
+        for c in ast.walk(root):
+            if not isinstance(c, ast.Call) or any(isinstance(x, ast.Starred) for x in c.args) or any(k.arg is None for k in c.keywords):
+                continue
+            cp = _callee_params(model, f, c)
+            if cp is None:
+                continue
+            q, pos, kwonly, _po = cp
+            if len(c.args) > len(pos):
+                continue
+            d = seen.setdefault(q, {})
+            for p_ in pos[:len(c.args)]:
+                d.setdefault(p_, set()).add("pos")
+            for k in c.keywords:
+                if k.arg in pos:
+                    d.setdefault(k.arg, set()).add("kw")
+    return {q: {p_: next(iter(v)) for p_, v in d.items() if len(v) == 1} for q, d in seen.items() if any(len(v) == 1 for v in d.values())}
+
+
+def normalise_call_conventions(model, conv: dict) -> int:
+    """Arguments are passed the way the pinned tree passes them: a keyword argument that every pinned call site of the callee passes
+    positionally becomes positional (only the first keyword, and only when it is the next parameter: evaluation order is kept), a
+    trailing positional argument that every pinned site passes by keyword becomes a keyword.  The identity on the pinned tree."""
+    n = 0
+    scopes = [(f, f.node) for f in model.functions.values() if not f.module.short.startswith("_typeguard")]
+    for mod in model.modules.values():
+        if not mod.short.startswith("_typeguard"):
+            for st in mod.tree.body:
+                if not isinstance(st, (ast.FunctionDef, ast.AsyncFunctionDef, ast.ClassDef)):
+                    scopes.append((mod, st))
+    for f, root in scopes:
+        for c in ast.walk(root):
+            if not isinstance(c, ast.Call) or any(isinstance(x, ast.Starred) for x in c.args) or any(k.arg is None for k in c.keywords):
+                continue
+            cp = _callee_params(model, f, c)
+            if cp is None:
+                continue
+            q, pos, kwonly, posonly = cp
+            cv = conv.get(q)
+            if not cv or len(c.args) > len(pos):
+                continue
+            changed = True
+            while changed:
+                changed = False
+                if c.keywords and len(c.args) < len(pos) and c.keywords[0].arg == pos[len(c.args)] and cv.get(c.keywords[0].arg) == "pos":
+                    c.args.append(c.keywords.pop(0).value)
+                    changed = True
+                    n += 1
+                elif c.args and pos[len(c.args) - 1] not in posonly and cv.get(pos[len(c.args) - 1]) == "kw" \
+                        and not any(k.arg == pos[len(c.args) - 1] for k in c.keywords):
+                    v = c.args.pop()
+                    c.keywords.insert(0, ast.keyword(arg=pos[len(c.args)], value=v))
+                    changed = True
+                    n += 1
+    return n
+
+
+# ------------------------------------------------------------------ pinned functions under new names: renamed back
+def rename_functions_back(model, FUNCTIONS, SIGNATURES, BAGS) -> list:
+    """A pinned function / method / local function that no longer exists, while its container has a new function with the same
+    parameter list whose body resembles the pinned body, has been renamed: the definition and every reference to it in the package
+    get the pinned name back (only when the pinned name is free wherever it would be written).  Module attribute names of private
+    helpers are not behaviour; for the analysis the renamed tree is the same program.  Returns [(new qualname, pinned qualname)]."""
+    done = []
+    for _round in range(4):
+        cur = model.functions
+        missing = sorted((q for q in FUNCTIONS if q not in cur and not q.startswith("_typeguard") and "." in q), key=lambda q: (q.count("."), q))
+        if not missing:
+            break
+        new = [f for q, f in cur.items() if q not in FUNCTIONS and not f.module.short.startswith("_typeguard")
+               and isinstance(f.node, (ast.FunctionDef, ast.AsyncFunctionDef))]
+        taken = set()
+        pairs = []
+        for q in missing:
+            container = q.rsplit(".", 1)[0]
+            if container.split(".")[0] not in model.modules:
+                continue
+            ps = tuple(SIGNATURES.get(q, ()))
+            cands = [f for f in new if f.qualname.rsplit(".", 1)[0] == container and tuple(f.params) == ps and f.qualname not in taken]
+            if not cands:
+                continue
+            bag = BAGS.get(q)
+            g = None
+            if bag:
+                pb = set(bag)
+                scored = sorted(((len(bag_of(c.node) & pb) / max(1, len(bag_of(c.node) | pb)), c.qualname, c) for c in cands), key=lambda x: (-x[0], x[1]))
+                if scored[0][0] >= 0.5 and (len(scored) == 1 or scored[0][0] > scored[1][0]):
+                    g = scored[0][2]
+            elif len(cands) == 1 and ps:
+                g = cands[0]
+            if g is not None and bag:
+                rk = next((b_ for b_ in bag if b_.startswith("retkinds=")), None)
+                if rk is not None and rk != "retkinds=" + return_kinds(g.node):
+                    g = None  # returns a different kind of thing: not the pinned function under a new name
+            if g is not None and bag and ("ret:+" in bag or "ret:-" in bag):
+                pol = return_polarity(g.node)
+                if (pol > 0 and "ret:-" in bag) or (pol < 0 and "ret:+" in bag):
+                    g = None  # renamed and inverted: a different function
+            if g is not None:
+                taken.add(g.qualname)
+                pairs.append((g, q))
+        if not pairs:
+            break
+        changed = False
+        for g, q in pairs:
+            old, newn = q.rsplit(".", 1)[1].split("#")[0], g.name
+            if old == newn or "#" in q.rsplit(".", 1)[1]:
+                continue
+            if _rename_function(model, g, newn, old):
+                done.append((g.qualname, q))
+                changed = True
+        if not changed:
+            break
+        model._reindex()
+    return done
+
+
+def _names_in(tree):
+    out = set()
+    for n in ast.walk(tree):
+        if isinstance(n, ast.Name):
+            out.add(n.id)
+        elif isinstance(n, ast.Attribute):
+            out.add(n.attr)
+        elif isinstance(n, (ast.FunctionDef, ast.AsyncFunctionDef, ast.ClassDef)):
+            out.add(n.name)
+        elif isinstance(n, ast.arg):
+            out.add(n.arg)
+        elif isinstance(n, ast.alias):
+            out.add((n.asname or n.name).split(".")[-1])
+            out.add(n.name.split(".")[-1])
+    return out
+
+
+def _rename_function(model, g, newn, old) -> bool:
+    mod = g.module
+    parent = getattr(g, "parent", None)
+    from .model import FuncInfo  # local import: alpha is imported by model
+
+    if isinstance(parent, FuncInfo):
+        # a local function: its name is visible in the parent's subtree only
+        if old in _names_in(parent.node):
+            return False
+        g.node.name = old
+        for n in ast.walk(parent.node):
+            if isinstance(n, ast.Name) and n.id == newn:
+                n.id = old
+        return True
+    if g.cls is not None:
+        # a method: `.new` anywhere in the package means this method only if nothing else is called like that
+        others = [c for c in model.classes.values() if c is not g.cls and newn in c.methods and g.cls not in getattr(model, "mro")(c)]
+        if others:
+            return False
+        for m2 in model.modules.values():
+            if m2.short.startswith("_typeguard"):
+                continue
+            if old in {n.attr for n in ast.walk(m2.tree) if isinstance(n, ast.Attribute)}:
+                return False
+        if old in {x.name for x in g.cls.node.body if isinstance(x, (ast.FunctionDef, ast.AsyncFunctionDef))} or old in {n.id for n in ast.walk(g.cls.node) if isinstance(n, ast.Name)}:
+            return False
+        g.node.name = old
+        for m2 in model.modules.values():
+            if m2.short.startswith("_typeguard"):
+                continue
+            for n in ast.walk(m2.tree):
+                if isinstance(n, ast.Attribute) and n.attr == newn:
+                    n.attr = old
+        for st in g.cls.node.body:
+            if not isinstance(st, (ast.FunctionDef, ast.AsyncFunctionDef)):
+                for n in ast.walk(st):
+                    if isinstance(n, ast.Name) and n.id == newn:
+                        n.id = old
+        return True
+    # a module-level function
+    affected = [mod]
+    for m2 in model.modules.values():
+        if m2 is mod or m2.short.startswith("_typeguard"):
+            continue
+        for st in ast.walk(m2.tree):
+            if isinstance(st, ast.ImportFrom) and (st.module or "").split(".")[-1] == mod.short and any(a.name == newn for a in st.names):
+                affected.append(m2)
+                break
+            if isinstance(st, ast.Attribute) and st.attr == newn:
+                affected.append(m2)
+                break
+    for m2 in affected:
+        if old in _names_in(m2.tree):
+            return False
+    g.node.name = old
+    for m2 in affected:
+        shadowing = set()
+        for fn in ast.walk(m2.tree):
+            if isinstance(fn, (ast.FunctionDef, ast.AsyncFunctionDef)) and fn is not g.node:
+                if newn in {a.arg for a in ast.walk(fn.args) if isinstance(a, ast.arg)}:
+                    shadowing |= {id(x) for x in ast.walk(fn)}
+        imported_plain = m2 is mod
+        for st in ast.walk(m2.tree):
+            if isinstance(st, ast.ImportFrom) and (st.module or "").split(".")[-1] == mod.short:
+                for a in st.names:
+                    if a.name == newn:
+                        a.name = old
+                        if a.asname is None:
+                            imported_plain = True
+        for n in ast.walk(m2.tree):
+            if isinstance(n, ast.Name) and n.id == newn and imported_plain and id(n) not in shadowing:
+                n.id = old
+            elif isinstance(n, ast.Attribute) and n.attr == newn and isinstance(n.value, ast.Name) and n.value.id.lstrip("_") == mod.short.lstrip("_"):
+                n.attr = old
+    return True
+
+
+# ------------------------------------------------------------------ pinned classes under new names
+def class_members(node) -> set:
+    out = set()
+    for st in node.body:
+        if isinstance(st, (ast.FunctionDef, ast.AsyncFunctionDef)):
+            out.add(st.name)
+        elif isinstance(st, ast.Assign):
+            out |= {t.id for t in st.targets if isinstance(t, ast.Name)}
+        elif isinstance(st, ast.AnnAssign) and isinstance(st.target, ast.Name):
+            out.add(st.target.id)
+    return out
+
+
+def rename_classes_back(model, CLASSES: dict) -> list:
+    """A pinned module-level class that no longer exists, while its module has exactly one new class with (nearly) the same members, has
+    been renamed: definition, references in the module, imports of it elsewhere get the pinned name back (when that name is free)."""
+    done = []
+    cur = {q: c for q, c in model.classes.items() if not c.module.short.startswith("_typeguard")}
+    missing = [q for q in CLASSES if q not in cur and q.count(".") == 1]
+    new = [c for q, c in cur.items() if q not in CLASSES and q.count(".") == 1]
+    taken = set()
+    for q in sorted(missing):
+        mod, old = q.split(".")
+        if mod not in model.modules:
+            continue
+        pm = set(CLASSES[q])
+        scored = []
+        for c in new:
+            if c.module.short != mod or c.qualname in taken:
+                continue
+            cm = class_members(c.node)
+            if not pm and not cm:
+                continue
+            scored.append((len(pm & cm) / max(1, len(pm | cm)), c.qualname, c))
+        scored.sort(key=lambda x: (-x[0], x[1]))
+        if not scored or scored[0][0] < 0.6 or (len(scored) > 1 and scored[1][0] == scored[0][0]):
+            continue
+        c = scored[0][2]
+        newn = c.node.name
+        affected = [c.module]
+        for m2 in model.modules.values():
+            if m2 is c.module or m2.short.startswith("_typeguard"):
+                continue
+            if any(isinstance(st, ast.ImportFrom) and (st.module or "").split(".")[-1] == mod and any(a.name == newn for a in st.names) for st in ast.walk(m2.tree)) \
+                    or any(isinstance(n, ast.Attribute) and n.attr == newn for n in ast.walk(m2.tree)):
+                affected.append(m2)
+        if any(old in _names_in(m2.tree) for m2 in affected):
+            continue
+        taken.add(c.qualname)
+        c.node.name = old
+        for m2 in affected:
+            plain = m2 is c.module
+            for st in ast.walk(m2.tree):
+                if isinstance(st, ast.ImportFrom) and (st.module or "").split(".")[-1] == mod:
+                    for a in st.names:
+                        if a.name == newn:
+                            a.name = old
+                            if a.asname is None:
+                                plain = True
+            for n in ast.walk(m2.tree):
+                if isinstance(n, ast.Name) and n.id == newn and plain:
+                    n.id = old
+                elif isinstance(n, ast.Attribute) and n.attr == newn:
+                    n.attr = old
+        done.append((f"{mod}.{newn}", q))
+    if done:
+        model._reindex()
+    return done
